@@ -36,6 +36,18 @@ ClassValue(c) ==
       [] c = "str_digits"  -> V("str", <<"4", "2">>)
       [] c = "str_float"   -> V("str", <<"1", ".", "5">>)
       [] c = "str_True"    -> V("str", <<"T", "r", "u", "e">>)
+      (* strings spelled like something strconv.Atoi / strconv.ParseFloat accepts: they survive only
+         because the writer quotes them *)
+      [] c = "str_inf"     -> V("str", <<"i", "n", "f">>)
+      [] c = "str_Infinity" -> V("str", <<"I", "n", "f", "i", "n", "i", "t", "y">>)
+      [] c = "str_NaN"     -> V("str", <<"N", "a", "N">>)
+      [] c = "str_neginf"  -> V("str", <<"-", "i", "n", "f">>)
+      [] c = "str_exp"     -> V("str", <<"1", "e", "5">>)
+      [] c = "str_hexfloat" -> V("str", <<"0", "x", "1", "p", "1">>)
+      [] c = "str_plusint" -> V("str", <<"+", "7">>)
+      [] c = "str_negint"  -> V("str", <<"-", "7">>)
+      [] c = "str_dotfrac" -> V("str", <<".", "5">>)
+      [] c = "str_underscore" -> V("str", <<"1", "_", "0">>)
       [] c = "bool_true"   -> V("bool", <<"t", "r", "u", "e">>)
       [] c = "bool_false"  -> V("bool", <<"f", "a", "l", "s", "e">>)
       [] c = "int_pos"     -> V("int", <<"4", "2">>)
@@ -101,11 +113,28 @@ TrimQuotes(s) == TrimQuotesR(TrimQuotesL(s))                       \* strings.Tr
 (* strconv.Atoi: optional sign, decimal digits, must fit in 64 bits (19 digits, checked coarsely) *)
 Unsigned(s) == IF s # <<>> /\ Head(s) \in {"-", "+"} THEN Tail(s) ELSE s
 IsIntText(s) == IsDigits(Unsigned(s)) /\ Len(Unsigned(s)) <= 19
-(* strconv.ParseFloat on the texts that can occur here: digits with at most one '.' *)
-IsFloatText(s) == LET u == Unsigned(s)  p == IndexOf(u, ".", 1)
-                  IN IF p = 0 THEN IsDigits(u)
-                     ELSE (Len(u) > 1 /\ (p = 1 \/ IsDigits(SubSeq(u, 1, p - 1)))
-                           /\ (p = Len(u) \/ IsDigits(SubSeq(u, p + 1, Len(u)))))
+(* strconv.ParseFloat: [sign] "inf" | "infinity" (any case), "nan" (any case, no sign), decimal
+   mantissa (digits with at most one '.', at least one digit) with an optional exponent e[sign]digits,
+   hexadecimal mantissa 0x... with a mandatory exponent p[sign]digits.  Underscores and values out of
+   the float64 range are outside the enumerated alphabets / lengths. *)
+Lower(c) == CASE c = "I" -> "i" [] c = "N" -> "n" [] c = "F" -> "f" [] c = "A" -> "a" [] c = "T" -> "t"
+              [] c = "Y" -> "y" [] c = "E" -> "e" [] c = "X" -> "x" [] c = "P" -> "p"
+              [] c = "B" -> "b" [] c = "C" -> "c" [] c = "D" -> "d" [] OTHER -> c
+LowerSeq(s) == [i \in 1 .. Len(s) |-> Lower(s[i])]
+HexDigits == Digits \cup {"a", "b", "c", "d", "e", "f"}
+IsMantissa(u, ds) == LET p == IndexOf(u, ".", 1)
+                         AllIn(x) == \A i \in 1 .. Len(x) : x[i] \in ds
+                     IN IF p = 0 THEN u # <<>> /\ AllIn(u)
+                        ELSE Len(u) > 1 /\ AllIn(SubSeq(u, 1, p - 1)) /\ AllIn(SubSeq(u, p + 1, Len(u)))
+IsSpecialFloat(s) == LET l == LowerSeq(s) IN
+    l = <<"n", "a", "n">> \/ Unsigned(l) \in {<<"i", "n", "f">>, <<"i", "n", "f", "i", "n", "i", "t", "y">>}
+IsDecFloat(u) == LET e == IndexOf(u, "e", 1) IN
+    IF e = 0 THEN IsMantissa(u, Digits)
+    ELSE IsMantissa(SubSeq(u, 1, e - 1), Digits) /\ IsDigits(Unsigned(SubSeq(u, e + 1, Len(u))))
+IsHexFloat(u) == Len(u) >= 5 /\ u[1] = "0" /\ u[2] = "x" /\
+    LET m == SubSeq(u, 3, Len(u))  q == IndexOf(m, "p", 1) IN
+    q > 1 /\ IsMantissa(SubSeq(m, 1, q - 1), HexDigits) /\ IsDigits(Unsigned(SubSeq(m, q + 1, Len(m))))
+IsFloatText(s) == IsSpecialFloat(s) \/ LET u == Unsigned(LowerSeq(s)) IN IsDecFloat(u) \/ IsHexFloat(u)
 CanonInt(s) == s       \* the classes use canonical texts
 (* a float is identified by its shortest 'f' text: "2.0" denotes the same number as "2" *)
 CanonFloat(s) == IF Len(s) > 2 /\ s[Len(s)] = "0" /\ s[Len(s) - 1] = "." /\ ~HasDot(SubSeq(s, 1, Len(s) - 2))
@@ -172,6 +201,9 @@ Summary(r) == [err |-> r.err,
                                    [j \in 1 .. Len(ks) |-> [key |-> ks[j], kind |-> r.d[ss[i]][ks[j]].k,
                                                              text |-> r.d[ss[i]][ks[j]].t]]]]]
 RawCase == [content |-> doc, parsed |-> Summary(Parse(<<doc>>))]
+RawStrings2 == UNION {[1 .. n -> RawAlphabet] : n \in 1 .. RawLen}
+RawInit2 == doc \in {p \o s : p \in RawPrefixes, s \in RawStrings2}   \* as RawInit, without the empty string
+RawSpec2 == RawInit2 /\ [][Next]_doc
 EmitRaw == PrintT("@@CASE " \o ToJson(RawCase))
 RoundTripInv == RoundTrips(Concrete(doc))
 CommentInv == CommentInert(Concrete(doc))
